@@ -45,7 +45,10 @@ class InterceptingLLUDPProxyProtocol(UDPProxyProtocol):
             if self.session is None:
                 continue
             for region in self.session.regions:
-                if not region.circuit or not region.circuit.is_alive:
+                # Not gated on `is_alive`: a circuit that was marked dead by CloseCircuit / DisableSimulator
+                # still forwards and may have reliable packets of ours in flight, those need their resends
+                # (and a failure when they run out) too. A no-op once its unacked table has drained.
+                if not region.circuit:
                     continue
                 region.circuit.resend_unacked()
 
